@@ -40,9 +40,10 @@ type vpMut struct {
 }
 
 type vpIssue struct {
-	op string
-	by string
-	at int64
+	op      string
+	by      string
+	at      int64
+	ownerAt string // owner of the live record when the operation was issued ("" = none)
 }
 
 type vpStore struct {
@@ -61,6 +62,7 @@ type vpStore struct {
 	watchMode int  // 0: NATS-like (initial value, nil marker, stays open); 1: mock-like (initial value, closed)
 	watchFail bool // Watch() returns an error
 	noEvents  bool // watch events are never delivered (lost)
+	onWrite   func(by, op string) // harness monitor, called before a successful mutation is applied
 	cut       bool // store unreachable: operations fail/hang according to the handle's fault config
 }
 
@@ -107,6 +109,9 @@ func (s *vpStore) errUnreachable() error {
 }
 
 func (s *vpStore) write(by, op string, val []byte, tomb bool, rev uint64) uint64 {
+	if s.onWrite != nil {
+		s.onWrite(by, op)
+	}
 	m := vpMut{op: op, by: by, key: s.key, rev: rev, ok: true, at: vpNow(), prevLive: s.lastSeq != 0 && !s.tomb, prevBy: s.writer, prevVal: s.val, prevSeq: s.lastSeq, newVal: val}
 	s.seq++
 	s.lastSeq = s.seq
@@ -234,7 +239,11 @@ func (k *vpKV) begin(op string) int {
 		k.opLeft--
 	}
 	k.curStart = vpNow()
-	k.st.issued = append(k.st.issued, vpIssue{op: op, by: k.name, at: vpNow()})
+	owner := ""
+	if k.st.live() {
+		owner = k.st.writer
+	}
+	k.st.issued = append(k.st.issued, vpIssue{op: op, by: k.name, at: vpNow(), ownerAt: owner})
 	vpEvent("issue", op, k.name)
 	vpYield(op + ".issue")
 	f := vpFaultNone
